@@ -31,6 +31,8 @@ import (
 	"go/token"
 	"os"
 	"path/filepath"
+	"reflect"
+	"regexp"
 	"sort"
 	"strconv"
 	"strings"
@@ -155,15 +157,84 @@ func importName(f *ast.File, path string) (string, *ast.ImportSpec) {
 	return "", nil
 }
 
+var makeChanRe = regexp.MustCompile(`make\(chan ([A-Za-z0-9_.*\[\]{}]+)(, ?0)?\)`)
+
+// chanNames: identifiers / field names declared with a channel type in this file (range heuristic).
+var chanNames map[string]bool
+
+func isChanName(e ast.Expr) bool {
+	switch x := e.(type) {
+	case *ast.Ident:
+		return chanNames[x.Name]
+	case *ast.SelectorExpr:
+		return chanNames[x.Sel.Name]
+	}
+	return false
+}
+
+func reflectIsNil(n ast.Node) bool {
+	switch x := n.(type) {
+	case ast.Stmt:
+		return x == nil || reflect.ValueOf(x).IsNil()
+	case ast.Expr:
+		return x == nil || reflect.ValueOf(x).IsNil()
+	}
+	return false
+}
+
 func rewrite(path string, src []byte, counts map[string]int) ([]byte, bool) {
+	preChanged := false
+	if makeChanRe.Match(src) {
+		// unbuffered channels become one-slot rendezvous channels known to the runtime
+		src = makeChanRe.ReplaceAll(src, []byte("mcrt.ChanMake(make(chan $1, 1)).(chan $1)"))
+		preChanged = true
+		counts["makechan"]++
+	}
 	fset := token.NewFileSet()
 	f, err := parser.ParseFile(fset, path, src, parser.ParseComments)
 	if err != nil {
 		fmt.Fprintf(os.Stderr, "inst: parse %s: %v\n", path, err)
 		os.Exit(2)
 	}
-	changed := false
-	needMcrt := false
+	changed := preChanged
+	needMcrt := preChanged
+	chanNames = map[string]bool{}
+	ast.Inspect(f, func(n ast.Node) bool {
+		switch x := n.(type) {
+		case *ast.Field:
+			if _, ok := x.Type.(*ast.ChanType); ok {
+				for _, nm := range x.Names {
+					chanNames[nm.Name] = true
+				}
+			}
+		case *ast.ValueSpec:
+			if _, ok := x.Type.(*ast.ChanType); ok {
+				for _, nm := range x.Names {
+					chanNames[nm.Name] = true
+				}
+			}
+		case *ast.AssignStmt:
+			for i, r := range x.Rhs {
+				if c, ok := r.(*ast.TypeAssertExpr); ok {
+					if _, isChan := c.Type.(*ast.ChanType); isChan && i < len(x.Lhs) {
+						if id, ok := x.Lhs[i].(*ast.Ident); ok {
+							chanNames[id.Name] = true
+						}
+					}
+				}
+				if c, ok := r.(*ast.CallExpr); ok {
+					if id, ok := c.Fun.(*ast.Ident); ok && id.Name == "make" && len(c.Args) > 0 {
+						if _, isChan := c.Args[0].(*ast.ChanType); isChan && i < len(x.Lhs) {
+							if id, ok := x.Lhs[i].(*ast.Ident); ok {
+								chanNames[id.Name] = true
+							}
+						}
+					}
+				}
+			}
+		}
+		return true
+	})
 	keep := map[string]string{} // pkg name -> symbol to reference so the import stays used
 
 	if name, im := importName(f, "sync"); im != nil {
@@ -215,29 +286,9 @@ func rewrite(path string, src []byte, counts map[string]int) ([]byte, bool) {
 		})
 		return ok
 	}
-	hasBareBreak := func(stmts []ast.Stmt) bool {
-		found := false
-		var walk func(n ast.Node) bool
-		walk = func(n ast.Node) bool {
-			switch x := n.(type) {
-			case *ast.ForStmt, *ast.RangeStmt, *ast.SwitchStmt, *ast.TypeSwitchStmt, *ast.SelectStmt, *ast.FuncLit:
-				return false
-			case *ast.BranchStmt:
-				if x.Tok == token.BREAK && x.Label == nil {
-					found = true
-				}
-			}
-			return true
-		}
-		for _, s := range stmts {
-			ast.Inspect(s, walk)
-		}
-		return found
-	}
-
-	// statement-level rewrites need parent access: walk block lists
-	var rewriteStmt func(s ast.Stmt) ast.Stmt
-	var rewriteList func(list []ast.Stmt)
+	// statement-level rewrites: every statement list is rebuilt, so that scheduling calls can be
+	// inserted before (and after) a statement
+	covered := map[*ast.UnaryExpr]bool{}
 	recvOf := func(e ast.Expr) (ast.Expr, bool) {
 		for {
 			if p, ok := e.(*ast.ParenExpr); ok {
@@ -251,86 +302,216 @@ func rewrite(path string, src []byte, counts map[string]int) ([]byte, bool) {
 		}
 		return nil, false
 	}
-	rewriteStmt = func(s ast.Stmt) ast.Stmt {
-		switch x := s.(type) {
-		case *ast.GoStmt:
-			counts["go"]++
-			if fl, ok := x.Call.Fun.(*ast.FuncLit); ok && len(x.Call.Args) == 0 {
-				return &ast.ExprStmt{X: mc("Go", fl)}
+	pureChanExpr := func(e ast.Expr) bool {
+		// the channel expression is evaluated twice (once for the wait, once for the real operation):
+		// allow identifiers, selectors, index expressions and argument-less method calls (ctx.Done())
+		ok := true
+		ast.Inspect(e, func(n ast.Node) bool {
+			switch x := n.(type) {
+			case *ast.CallExpr:
+				if len(x.Args) != 0 {
+					ok = false
+				}
+			case *ast.FuncLit, *ast.UnaryExpr, *ast.BinaryExpr:
+				ok = false
 			}
-			for _, a := range x.Call.Args {
-				if !simpleArg(a) {
-					fail(fset, x.Pos(), "go statement with non-trivial argument expressions")
+			return ok
+		})
+		return ok
+	}
+	// ownRecvs: receive expressions evaluated by the statement itself (not inside nested blocks / closures)
+	ownRecvs := func(st ast.Stmt) []*ast.UnaryExpr {
+		var out []*ast.UnaryExpr
+		var visit func(n ast.Node) bool
+		visit = func(n ast.Node) bool {
+			switch x := n.(type) {
+			case *ast.BlockStmt, *ast.FuncLit, *ast.SelectStmt:
+				return false
+			case *ast.IfStmt:
+				if x.Init != nil {
+					ast.Inspect(x.Init, visit)
+				}
+				ast.Inspect(x.Cond, visit)
+				return false // bodies and else-branches are statement lists / statements of their own
+			case *ast.ForStmt, *ast.RangeStmt:
+				return false
+			case *ast.SwitchStmt:
+				if x.Init != nil {
+					ast.Inspect(x.Init, visit)
+				}
+				if x.Tag != nil {
+					ast.Inspect(x.Tag, visit)
+				}
+				return false
+			case *ast.TypeSwitchStmt:
+				return false
+			case *ast.UnaryExpr:
+				if x.Op == token.ARROW {
+					out = append(out, x)
 				}
 			}
-			if !simpleArg(x.Call.Fun) {
-				fail(fset, x.Pos(), "go statement with non-trivial function expression")
+			return true
+		}
+		ast.Inspect(st, visit)
+		return out
+	}
+	exprStmt := func(e ast.Expr) ast.Stmt { return &ast.ExprStmt{X: e} }
+	var rewriteList func(list []ast.Stmt) []ast.Stmt
+	rewriteSelect := func(x *ast.SelectStmt) ast.Stmt {
+		dirs := ""
+		var chs []ast.Expr
+		sw := &ast.SwitchStmt{Body: &ast.BlockStmt{}}
+		var defClause *ast.CommClause
+		idx := 0
+		for _, c := range x.Body.List {
+			cc := c.(*ast.CommClause)
+			if cc.Comm == nil {
+				defClause = cc
+				continue
 			}
-			body := &ast.BlockStmt{List: []ast.Stmt{&ast.ExprStmt{X: x.Call}}}
-			return &ast.ExprStmt{X: mc("Go", &ast.FuncLit{Type: &ast.FuncType{Params: &ast.FieldList{}}, Body: body})}
-		case *ast.ExprStmt:
-			if ch, ok := recvOf(x.X); ok {
-				counts["recv"]++
-				return &ast.ExprStmt{X: mc("RecvStruct", ch)}
-			}
-		case *ast.SendStmt:
-			fail(fset, x.Pos(), "channel send is not modelled")
-		case *ast.SelectStmt:
-			var recvCase, defCase *ast.CommClause
-			okShape := len(x.Body.List) == 2
-			for _, c := range x.Body.List {
-				cc := c.(*ast.CommClause)
-				if cc.Comm == nil {
-					defCase = cc
-				} else if es, ok := cc.Comm.(*ast.ExprStmt); ok {
-					if _, isRecv := recvOf(es.X); isRecv {
-						recvCase = cc
+			var ch ast.Expr
+			var dir byte
+			switch cm := cc.Comm.(type) {
+			case *ast.SendStmt:
+				ch, dir = cm.Chan, 's'
+			case *ast.ExprStmt:
+				if c2, ok := recvOf(cm.X); ok {
+					ch, dir = c2, 'r'
+					covered[cm.X.(*ast.UnaryExpr)] = true
+				}
+			case *ast.AssignStmt:
+				if len(cm.Rhs) == 1 {
+					if c2, ok := recvOf(cm.Rhs[0]); ok {
+						ch, dir = c2, 'r'
+						if u, ok := cm.Rhs[0].(*ast.UnaryExpr); ok {
+							covered[u] = true
+						}
 					}
 				}
 			}
-			if !okShape || recvCase == nil || defCase == nil {
-				fail(fset, x.Pos(), "select shape is not modelled (only `case <-ch:` + `default:`)")
-				return s
+			if ch == nil || !pureChanExpr(ch) {
+				fail(fset, cc.Pos(), "select case is not modelled")
+				return x
 			}
-			if hasBareBreak(recvCase.Body) || hasBareBreak(defCase.Body) {
-				fail(fset, x.Pos(), "select with a bare break is not modelled")
-				return s
+			dirs += string(dir)
+			chs = append(chs, ch)
+			body := []ast.Stmt{cc.Comm}
+			if dir == 's' {
+				body = append(body, exprStmt(mc("ChanSendDone", ch)))
 			}
-			counts["select"]++
-			ch, _ := recvOf(recvCase.Comm.(*ast.ExprStmt).X)
-			rewriteList(recvCase.Body)
-			rewriteList(defCase.Body)
-			return &ast.IfStmt{
-				Cond: mc("TryRecvStruct", ch),
-				Body: &ast.BlockStmt{List: recvCase.Body},
-				Else: &ast.BlockStmt{List: defCase.Body},
-			}
+			body = append(body, rewriteList(cc.Body)...)
+			sw.Body.List = append(sw.Body.List, &ast.CaseClause{List: []ast.Expr{&ast.BasicLit{Kind: token.INT, Value: strconv.Itoa(idx)}}, Body: body})
+			idx++
 		}
-		return s
+		if defClause != nil {
+			dirs += "d"
+			sw.Body.List = append(sw.Body.List, &ast.CaseClause{Body: rewriteList(defClause.Body)})
+		}
+		args := append([]ast.Expr{&ast.BasicLit{Kind: token.STRING, Value: strconv.Quote(dirs)}}, chs...)
+		sw.Tag = mc("ChanSelect", args...)
+		counts["select"]++
+		return sw
 	}
-	rewriteList = func(list []ast.Stmt) {
-		for i, s := range list {
-			list[i] = rewriteStmt(s)
+	rewriteList = func(list []ast.Stmt) []ast.Stmt {
+		var out []ast.Stmt
+		for _, st := range list {
+			switch x := st.(type) {
+			case *ast.LabeledStmt:
+				inner := rewriteList([]ast.Stmt{x.Stmt})
+				if len(inner) != 1 {
+					fail(fset, x.Pos(), "labelled statement needing inserted scheduling calls is not modelled")
+				}
+				x.Stmt = inner[len(inner)-1]
+				out = append(out, inner[:len(inner)-1]...)
+				out = append(out, x)
+				continue
+			case *ast.GoStmt:
+				counts["go"]++
+				if fl, ok := x.Call.Fun.(*ast.FuncLit); ok && len(x.Call.Args) == 0 {
+					out = append(out, exprStmt(mc("Go", fl)))
+					continue
+				}
+				for _, a := range x.Call.Args {
+					if !simpleArg(a) {
+						fail(fset, x.Pos(), "go statement with non-trivial argument expressions")
+					}
+				}
+				if !simpleArg(x.Call.Fun) {
+					fail(fset, x.Pos(), "go statement with non-trivial function expression")
+				}
+				body := &ast.BlockStmt{List: []ast.Stmt{exprStmt(x.Call)}}
+				out = append(out, exprStmt(mc("Go", &ast.FuncLit{Type: &ast.FuncType{Params: &ast.FieldList{}}, Body: body})))
+				continue
+			case *ast.SendStmt:
+				if !pureChanExpr(x.Chan) {
+					fail(fset, x.Pos(), "send on a channel expression with side effects is not modelled")
+				}
+				counts["send"]++
+				out = append(out, exprStmt(mc("ChanSendWait", x.Chan)), x, exprStmt(mc("ChanSendDone", x.Chan)))
+				continue
+			case *ast.SelectStmt:
+				out = append(out, rewriteSelect(x))
+				continue
+			case *ast.RangeStmt:
+				if isChanName(x.X) {
+					// for k := range ch { body }  ->  for { wait; k, ok := <-ch; if !ok { break }; body }
+					counts["rangechan"]++
+					recv := &ast.UnaryExpr{Op: token.ARROW, X: x.X}
+					covered[recv] = true
+					okIdent := ast.NewIdent("mcrtOk")
+					var lhs []ast.Expr
+					if x.Key != nil {
+						lhs = []ast.Expr{x.Key, okIdent}
+					} else {
+						lhs = []ast.Expr{ast.NewIdent("_"), okIdent}
+					}
+					tok := token.DEFINE
+					body := []ast.Stmt{
+						exprStmt(mc("ChanRecvWait", x.X)),
+						&ast.AssignStmt{Lhs: lhs, Tok: tok, Rhs: []ast.Expr{recv}},
+						&ast.IfStmt{Cond: &ast.UnaryExpr{Op: token.NOT, X: okIdent}, Body: &ast.BlockStmt{List: []ast.Stmt{&ast.BranchStmt{Tok: token.BREAK}}}},
+					}
+					body = append(body, x.Body.List...)
+					out = append(out, &ast.ForStmt{Body: &ast.BlockStmt{List: body}})
+					continue
+				}
+			case *ast.ForStmt:
+				for _, part := range []ast.Node{x.Init, x.Cond, x.Post} {
+					if part == nil || (reflectIsNil(part)) {
+						continue
+					}
+					ast.Inspect(part, func(n ast.Node) bool {
+						if u, ok := n.(*ast.UnaryExpr); ok && u.Op == token.ARROW {
+							fail(fset, u.Pos(), "channel receive in a for-loop header is not modelled")
+						}
+						_, isLit := n.(*ast.FuncLit)
+						return !isLit
+					})
+				}
+			}
+			for _, u := range ownRecvs(st) {
+				if covered[u] {
+					continue // the receive of a select case: ChanSelect already made sure it cannot block
+				}
+				if !pureChanExpr(u.X) {
+					fail(fset, u.Pos(), "receive from a channel expression with side effects is not modelled")
+				}
+				covered[u] = true
+				counts["recv"]++
+				out = append(out, exprStmt(mc("ChanRecvWait", u.X)))
+			}
+			out = append(out, st)
 		}
+		return out
 	}
 	ast.Inspect(f, func(n ast.Node) bool {
 		switch x := n.(type) {
 		case *ast.BlockStmt:
-			rewriteList(x.List)
+			x.List = rewriteList(x.List)
 		case *ast.CaseClause:
-			rewriteList(x.Body)
+			x.Body = rewriteList(x.Body)
 		case *ast.CommClause:
-			rewriteList(x.Body)
-		case *ast.LabeledStmt:
-			x.Stmt = rewriteStmt(x.Stmt)
-		case *ast.IfStmt:
-			if x.Else != nil {
-				if _, isBlock := x.Else.(*ast.BlockStmt); !isBlock {
-					if _, isIf := x.Else.(*ast.IfStmt); !isIf {
-						x.Else = rewriteStmt(x.Else)
-					}
-				}
-			}
+			x.Body = rewriteList(x.Body)
 		}
 		return true
 	})
@@ -340,7 +521,7 @@ func rewrite(path string, src []byte, counts map[string]int) ([]byte, bool) {
 		case *ast.CallExpr:
 			if id, ok := x.Fun.(*ast.Ident); ok && id.Name == "close" && id.Obj == nil && len(x.Args) == 1 {
 				counts["close"]++
-				x.Fun = mc("Close").Fun
+				x.Fun = mc("ChanClose").Fun
 			} else if isPkgCall(x, timeName, "Sleep") {
 				counts["sleep"]++
 				x.Fun = mc("Sleep").Fun
@@ -355,9 +536,8 @@ func rewrite(path string, src []byte, counts map[string]int) ([]byte, bool) {
 				keep[logName] = "Println"
 			}
 		case *ast.UnaryExpr:
-			if x.Op == token.ARROW {
-				// a receive that survived the statement rewrite produces a value: not modelled
-				fail(fset, x.Pos(), "value-producing channel receive is not modelled")
+			if x.Op == token.ARROW && !covered[x] {
+				fail(fset, x.Pos(), "channel receive in a position the instrumenter does not model")
 			}
 		case *ast.RangeStmt:
 			// cannot type-check; flag only the obvious `range <chan-typed field named done/ch>`
